@@ -34,5 +34,42 @@ elif cmd == "fixed":
         json.dump(r, open(dst, "w"), indent=1)
         entry["regression_case"] = dst
     d["findings"].append(entry)
+elif cmd == "tofixed":
+    # kf.py tofixed <id> <commit> ["<what override>"]: known entry (main file or a fragment) -> fixed entry in the main file
+    import glob
+    id, commit = sys.argv[2:4]
+    MAIN = "/verif/known_findings.json"
+    main = json.load(open(MAIN))
+    found = None
+    for path in [MAIN] + sorted(glob.glob("/verif/known_findings.d/*.json")):
+        doc = json.load(open(path))
+        keep = []
+        for f in doc["findings"]:
+            if f.get("id") == id and f.get("state") == "known":
+                found = f
+            else:
+                keep.append(f)
+        if len(keep) != len(doc["findings"]):
+            doc["findings"] = keep
+            if path == MAIN:
+                main = doc
+            elif keep:
+                json.dump(doc, open(path, "w"), indent=1)
+            else:
+                os.remove(path)
+    assert found, "no such known entry"
+    what = sys.argv[4] if len(sys.argv) > 4 else found["what"]
+    regs = []
+    for i, w in enumerate(found.get("witnesses", [])):
+        os.makedirs(f"/verif/regress/{w['property']}", exist_ok=True)
+        dst = f"/verif/regress/{w['property']}/{id.replace('/', '_')}-{i}.json"
+        json.dump({"property": w["property"], "sub": w["sub"], "case": w["case"], "note": f"regression witness of fixed defect {id} ({commit})"}, open(dst, "w"), indent=1)
+        regs.append(dst)
+    prop = found["property"]
+    main["findings"].append({"state": "fixed", "property": prop, "commit": commit, "former_id": id, "what": what,
+                             "line": f"fixed: property={prop} {commit} {what}", "regression_cases": regs})
+    json.dump(main, open(MAIN, "w"), indent=1)
+    print("fixed", id, regs)
+    sys.exit(0)
 json.dump(d, open(P, "w"), indent=1)
 print("ok", len(d["findings"]), "entries")
